@@ -491,6 +491,68 @@ Definition tree_view (s : prov) : list entry :=
                         | None => []
                         end) (dedup (fs_refs s))).
 
+Inductive op_shape := SRename (k : key) (p : path) | SDelete (k : key) | SUpload (k : key) | SOther.
+
+(* ------------------------------------------------------------------ well-formedness, executable *)
+(* the calls an engine makes: oids are oids (not paths, for id-style), the root is neither renamed
+   nor deleted nor a rename target, a folder is not renamed into its own subtree *)
+Definition key_genuine (c : cfg) (k : key) : bool :=
+  match k with KId _ => negb (c_oidpath c) | KPath _ => c_oidpath c end.
+
+Definition clean_op (s : prov) (o : op_shape) : bool :=
+  match o with
+  | SRename k p =>
+    key_genuine (p_cfg s) k &&
+    match p with [] => false | _ => true end &&
+    match get_live s k with
+    | Some (_, x) => match o_path x with [] => false | _ => true end
+                     && negb (is_under (p_cfg s) (o_path x) p)
+    | None => true
+    end
+  | SDelete k =>
+    key_genuine (p_cfg s) k &&
+    match get_live s k with
+    | Some (_, x) => match o_path x with [] => false | _ => true end
+    | None => true
+    end
+  | SUpload k => key_genuine (p_cfg s) k
+  | SOther => true
+  end.
+
+Definition live_ok (s : prov) (r : nat) (x : obj) : bool :=
+  own_key_ok s r
+  && match dget (o_oid x) (p_dict s) with Some r' => Nat.eqb r r' | None => false end
+  && (if c_oidpath (p_cfg s) then key_eqb (o_oid x) (KPath (o_path x)) else key_eqb (o_oid x) (KId (N.of_nat r)))
+  && match o_path x with
+     | [] => match o_kind x with KDir => true | KFile => false end
+     | _ => match info_path s (removelast (o_path x)) with
+            | Some i => match i_kind i with KDir => true | KFile => false end
+            | None => false
+            end
+     end.
+
+Fixpoint nodupb (l : list nat) : bool :=
+  match l with
+  | [] => true
+  | x :: t => negb (existsb (Nat.eqb x) t) && nodupb t
+  end.
+
+Definition is_live (s : prov) (r : nat) : bool :=
+  match nth_error (p_heap s) r with Some x => o_exists x | None => false end.
+
+(* root is a live folder; every live object is filed under its own normalised path and under its
+   oid, has the oid its flavour prescribes and a live folder as parent; no live object is listed twice *)
+Definition wfb (s : prov) : bool :=
+  match get_live s (pkey s []) with
+  | Some (_, o) => match o_path o with [] => true | _ => false end
+  | None => false
+  end
+  && forallb (fun r => match nth_error (p_heap s) r with
+                       | Some x => if o_exists x then live_ok s r x else true
+                       | None => false
+                       end) (seq 0 (length (p_heap s)))
+  && nodupb (filter (is_live s) (fs_refs s)).
+
 (* ------------------------------------------------------------------ the step function *)
 Definition init (c : cfg) : prov :=
   let root := {| o_path := []; o_oid := if c_oidpath c then KPath [] else KId 0%N;
@@ -513,6 +575,14 @@ Inductive op :=
 | OEvents
 | OSetCursor (c : option nat)
 | OTree.
+
+Definition shape_of (o : op) : op_shape :=
+  match o with
+  | ORename k p => SRename k p
+  | ODelete k => SDelete k
+  | OUpload k _ => SUpload k
+  | _ => SOther
+  end.
 
 Inductive val :=
 | VInfo (i : info)
@@ -559,6 +629,13 @@ Fixpoint run_ops (s : prov) (ops : list op) : prov * list (res val * list event)
     let (s1, r) := step s o in
     let (s2, rs) := run_ops s1 t in
     (s2, (r, skipn (length (p_log s)) (p_log s1)) :: rs)
+  end.
+
+(* the same run, reporting per call: was the call clean in the state it met, is the state after it wf *)
+Fixpoint run_flags (s : prov) (ops : list op) : list (bool * bool) :=
+  match ops with
+  | [] => []
+  | o :: t => let s1 := fst (step s o) in (clean_op s (shape_of o), wfb s1) :: run_flags s1 t
   end.
 
 (* ------------------------------------------------------------------ Provider.connect *)
@@ -690,14 +767,15 @@ Definition un_cop (x : sx) : option cop :=
   | _ => None
   end.
 
-(* request (0 cfg ops)  -> one (result appended-events) per op
+(* request (0 cfg ops)  -> ((result appended-events) per op) ((clean wf-after) per op)
    request (1 cops)     -> one (result connected connection_id) per op; identity of creds n is n *)
 Definition run (x : sx) : sx :=
   match x with
   | L [A 0; c; ops] =>
     match un_cfg c, un_list un_op ops with
     | Some c, Some ops =>
-      sx_list (fun re => L [sx_resval (fst re); sx_list sx_event (snd re)]) (snd (run_ops (init c) ops))
+      L [sx_list (fun re => L [sx_resval (fst re); sx_list sx_event (snd re)]) (snd (run_ops (init c) ops));
+         sx_list (fun f => L [sx_bool (fst f); sx_bool (snd f)]) (run_flags (init c) ops)]
     | _, _ => sx_malformed
     end
   | L [A 1; ops] =>
